@@ -18,6 +18,7 @@ type Profile struct {
 	Genesis   func(t *rapid.T) GenesisCfg
 	Shape     func(t *rapid.T, op *Op) // property-specific shaping of a drawn op
 	ThoroughScale int // multiply block count in the thorough tier
+	Prefix    func(pick func(label string, n int) int) []Block // optional property-specific prefix blocks (choices still drawn from rapid)
 }
 
 // rapid's integer generators are deliberately biased towards small magnitudes (geometric bit
@@ -227,6 +228,9 @@ func GenHistory(t *rapid.T, p *Profile, thorough bool) History {
 			b1.Ops = append(b1.Ops, Op{K: OpSelectReporter, A: a, R: [3]int{uni(t, "setupSelRef", 8), 0, 0}})
 		}
 		h.Blocks = append(h.Blocks, b0, b1)
+	}
+	if p.Prefix != nil {
+		h.Blocks = append(h.Blocks, p.Prefix(func(label string, n int) int { return uni(t, label, n) })...)
 	}
 	maxB := p.MaxBlocks
 	if thorough && p.ThoroughScale > 1 {
